@@ -16,14 +16,17 @@ import (
 	"os"
 	"strings"
 	"sync"
+	"sync/atomic"
 	"testing"
 	"testing/synctest"
 	"time"
 
 	"github.com/postalsys/muti-metroo/internal/agent"
 	"github.com/postalsys/muti-metroo/internal/config"
+	"github.com/postalsys/muti-metroo/internal/flood"
 	"github.com/postalsys/muti-metroo/internal/identity"
 	"github.com/postalsys/muti-metroo/internal/protocol"
+	"github.com/postalsys/muti-metroo/internal/routing"
 	"github.com/postalsys/muti-metroo/internal/sleep"
 	"github.com/postalsys/muti-metroo/verifharness/scx"
 	"github.com/postalsys/muti-metroo/verifharness/vh"
@@ -39,10 +42,15 @@ type frameSpec struct {
 }
 
 type caseSpec struct {
-	Signing  bool        `json:"signing_key_configured"`
-	Sleeping bool        `json:"initially_sleeping"`
-	Frames   []frameSpec `json:"frames"`
-	Why      string      `json:"why,omitempty"`
+	Signing  bool `json:"signing_key_configured"`
+	Sleeping bool `json:"initially_sleeping"`
+	// the agent is asleep and inside a poll window (its own doPoll is running) when the frames arrive
+	InPoll bool        `json:"in_poll_window,omitempty"`
+	Frames []frameSpec `json:"frames"`
+	Why    string      `json:"why,omitempty"`
+	// concurrent phase (not a frame sequence), replayed by name
+	Scenario string `json:"scenario,omitempty"`
+	Attempts int    `json:"attempts_per_forger,omitempty"`
 }
 
 type sent struct {
@@ -103,6 +111,11 @@ func runCase(c *vh.Ctx, t *testing.T, keys *scx.Keys, dataDir string, cs *caseSp
 			cfg.Sleep.PersistState = false
 			cfg.Sleep.PollInterval = 6 * time.Hour
 			cfg.Sleep.PollIntervalJitter = 0
+			if cs.InPoll {
+				cfg.Listeners, cfg.Peers = nil, nil
+				cfg.Sleep.PollInterval = time.Hour
+				cfg.Sleep.PollDuration = 10 * time.Minute
+			}
 			if cs.Signing {
 				cfg.Management.SigningPublicKey = hex.EncodeToString(keys.Pub)
 			}
@@ -120,17 +133,29 @@ func runCase(c *vh.Ctx, t *testing.T, keys *scx.Keys, dataDir string, cs *caseSp
 			mgr := a.VerifInitSleepManager(sleep.Callbacks{
 				OnSleep: func() error { sleepCb++; return nil },
 				OnWake:  func() error { wakeCb++; return nil },
-				OnPoll:  func() error { return nil },
+				OnPoll: func() error {
+					if cs.InPoll {
+						return a.VerifDoPoll() // the agent's own poll cycle (sets up the wake signal, waits for the window to end)
+					}
+					return nil
+				},
 			})
 			defer func() {
 				mgr.Stop()
 				a.Stop()
 			}()
-			if cs.Sleeping {
+			if cs.Sleeping || cs.InPoll {
 				if err := mgr.Sleep(); err != nil {
 					panic(err)
 				}
 				sleepCb = 0
+			}
+			if cs.InPoll {
+				time.Sleep(time.Hour + time.Second) // the poll timer fires, doPoll opens the poll window
+				synctest.Wait()
+				if mgr.GetState() != sleep.StatePolling {
+					panic("agent did not enter its poll window")
+				}
 			}
 			for i := range cs.Frames {
 				fs := &cs.Frames[i]
@@ -210,6 +235,9 @@ func monitor(c *vh.Ctx, cs *caseSpec, obs []stepObs) {
 	if cs.Sleeping {
 		prev = 1
 	}
+	if cs.InPoll {
+		prev = 2
+	}
 	for i, o := range obs {
 		fs := cs.Frames[i]
 		acted := o.State != prev || o.SleepCb+o.WakeCb > 0
@@ -267,6 +295,72 @@ func monitor(c *vh.Ctx, cs *caseSpec, obs []stepObs) {
 		c.Fail(sig, fmt.Sprintf("frame %d (%s): agent %s a %s command with sig=%s sig_ok=%v zero=%v timestamp=%d at now=%d ns (window 300 s)",
 			i, fs.Type, what, cmd.Kind, cmd.Sig, cmd.SigOK, cmd.Zero, cmd.Ts, o.NowNs), cs)
 	}
+}
+
+// forgeStress: several peers keep delivering copies of one genuine signed
+// command (duplicates are verified before they are deduplicated) while other
+// peers deliver forged commands - fresh ids, current timestamp, the genuine
+// command's signature bytes - on their own goroutines, as the per-connection
+// read loops do. Real time, real Flooder. Returns forged commands accepted.
+func forgeStress(keys *scx.Keys, attempts int) (forgedAccepted, forgedTotal int64, firstID uint64, genuineAccepted int64) {
+	cfg := flood.DefaultFloodConfig()
+	var pub [32]byte
+	copy(pub[:], keys.Pub)
+	cfg.SigningPublicKey = &pub
+	rec := &recorder{}
+	for p := 1; p <= 6; p++ {
+		rec.peers = append(rec.peers, scx.ID(p))
+	}
+	f := flood.NewFlooder(cfg, scx.ID(0), routing.NewManager(scx.ID(0)), rec)
+	defer f.Stop()
+	ts := uint64(time.Now().Unix())
+	gspec := &scx.CmdSpec{Kind: "wake", Origin: 10, ID: 1000, Sig: "valid", TsAbs: &ts}
+	genuine := keys.Wake(gspec, int64(ts))
+	var stop atomic.Bool
+	var fOK, fTot, gOK atomic.Int64
+	var fID atomic.Uint64
+	var relays, forgers sync.WaitGroup
+	for p := 1; p <= 3; p++ {
+		relays.Add(1)
+		go func(p int) {
+			defer relays.Done()
+			for !stop.Load() {
+				c := *genuine
+				if f.HandleWakeCommand(scx.ID(p), &c) {
+					gOK.Add(1)
+				}
+			}
+		}(p)
+	}
+	for p := 4; p <= 6; p++ {
+		forgers.Add(1)
+		go func(p int) {
+			defer forgers.Done()
+			for i := 0; i < attempts; i++ {
+				forged := &protocol.SleepCommand{OriginAgent: genuine.OriginAgent, CommandID: uint64(p)<<32 | uint64(i), Timestamp: ts, Signature: genuine.Signature}
+				fTot.Add(1)
+				if f.HandleSleepCommand(scx.ID(p), forged) {
+					if fOK.Add(1) == 1 {
+						fID.Store(forged.CommandID)
+					}
+				}
+			}
+		}(p)
+	}
+	forgers.Wait()
+	stop.Store(true)
+	relays.Wait()
+	return fOK.Load(), fTot.Load(), fID.Load(), gOK.Load()
+}
+
+func initCode(cs *caseSpec) uint64 {
+	switch {
+	case cs.InPoll:
+		return 2
+	case cs.Sleeping:
+		return 1
+	}
+	return 0
 }
 
 func coqFrame(fs *frameSpec) string {
@@ -361,7 +455,7 @@ func TestVerif(t *testing.T) {
 			c.Fail("panic", p, cs)
 			return
 		}
-		key := fmt.Sprintf("%v/%v", cs.Signing, cs.Sleeping)
+		key := fmt.Sprintf("%v/%v/%v", cs.Signing, cs.Sleeping, cs.InPoll)
 		for _, f := range cs.Frames {
 			c.Count("frame:" + f.Type)
 			if f.Cmd == nil {
@@ -383,7 +477,27 @@ func TestVerif(t *testing.T) {
 			steps = append(steps, fmt.Sprintf("mkstep %s %s %s (mkobs %s %s %s %s %s %s)", vh.CoqZ(o.NowNs), vh.CoqN(uint64(cs.Frames[i].From)), coqFrame(&cs.Frames[i]),
 				vh.CoqN(uint64(o.State)), vh.CoqN(uint64(o.SleepCb)), vh.CoqN(uint64(o.WakeCb)), scx.CoqNs(o.FwdSleep), scx.CoqNs(o.FwdWake), scx.CoqKeys(o.Keys)))
 		}
-		coq = append(coq, fmt.Sprintf("mkacase %s %s %s %s", vh.CoqZ(startNs), vh.CoqBool(cs.Signing), vh.CoqBool(cs.Sleeping), vh.CoqList(steps)))
+		coq = append(coq, fmt.Sprintf("mkacase %s %s %s %s", vh.CoqZ(startNs), vh.CoqBool(cs.Signing), vh.CoqN(initCode(cs)), vh.CoqList(steps)))
+	}
+
+	runForgeStress := func(attempts int) {
+		cs := &caseSpec{Signing: true, Scenario: "forged-with-copied-signature-under-concurrency", Attempts: attempts}
+		var ok, tot, gok int64
+		var id uint64
+		if p := vh.Recover(func() { ok, tot, id, gok = forgeStress(keys, attempts) }); p != "" {
+			c.Fail("panic", p, cs)
+			return
+		}
+		c.Case(fmt.Sprintf("forge-stress/%d", attempts), true, cs)
+		c.Count("forge-stress")
+		c.Res.Extra["forged_attempts"] = tot
+		coq = append(coq, "mkacase 0%Z true 0%N []")
+		if ok > 0 {
+			c.Fail("forged-command-accepted-under-concurrency", fmt.Sprintf("%d of %d forged sleep commands (fresh command id, e.g. %d; signature bytes copied from a genuine wake command that other peers kept delivering) were accepted and forwarded", ok, tot, id), cs)
+		}
+		if gok != 1 {
+			c.Fail("genuine-command-not-accepted-exactly-once", fmt.Sprintf("the genuine command was accepted %d times", gok), cs)
+		}
 	}
 
 	if c.Replay != "" {
@@ -391,8 +505,13 @@ func TestVerif(t *testing.T) {
 		if err := c.ReadReplay(&cs); err != nil {
 			t.Fatal(err)
 		}
-		do(&cs)
+		if cs.Scenario != "" {
+			runForgeStress(cs.Attempts)
+		} else {
+			do(&cs)
+		}
 	} else {
+		runForgeStress(c.N(3000, 40000))
 		// fixed witnesses first
 		// 1. unsigned command inside QUEUED_STATE, signing key configured
 		do(&caseSpec{Signing: true, Why: "witness-queued-unsigned-sleep", Frames: []frameSpec{{Type: "queued-sleep", From: 1, Cmd: &scx.CmdSpec{Kind: "sleep", Origin: 10, ID: 1, Sig: "zero"}}}})
@@ -438,10 +557,21 @@ func TestVerif(t *testing.T) {
 			{Type: "sleep", From: 1, AdvanceMs: 150000, Cmd: &scx.CmdSpec{Kind: "sleep", Origin: 11, ID: 2, Sig: "valid"}},
 			{Type: "peer-up", From: 2, AdvanceMs: 660000}, {Type: "sleep", From: 3, AdvanceMs: 100, Cmd: &scx.CmdSpec{Kind: "sleep", Origin: 11, ID: 2, Sig: "valid", TsDelta: -810}}}})
 
+		// 7. frames that arrive while the agent sits in a poll window (asleep, reconnected, its doPoll waiting)
+		for _, sig := range []string{"zero", "wrongkey", "bitflip", "valid"} {
+			do(&caseSpec{Signing: true, InPoll: true, Why: "poll-window", Frames: []frameSpec{
+				{Type: "wake", From: 1, AdvanceMs: 1000, Cmd: &scx.CmdSpec{Kind: "wake", Origin: 10, ID: 1, Sig: sig}},
+				{Type: "queued-wake", From: 2, AdvanceMs: 250, Cmd: &scx.CmdSpec{Kind: "wake", Origin: 10, ID: 2, Sig: sig, TsDelta: -301}},
+				{Type: "sleep", From: 3, AdvanceMs: 1, Cmd: &scx.CmdSpec{Kind: "sleep", Origin: 11, ID: 3, Sig: sig}}}})
+		}
+
 		n := c.N(500, 8000)
 		for i := 0; i < n; i++ {
 			r := c.Rand.Fork()
 			cs := &caseSpec{Signing: !r.Chance(1, 6), Sleeping: r.Chance(1, 2)}
+			if r.Chance(1, 6) {
+				cs.InPoll, cs.Sleeping = true, false
+			}
 			nf := 1 + r.Intn(4)
 			for j := 0; j < nf; j++ {
 				if j > 0 && r.Chance(1, 4) {
@@ -455,6 +585,14 @@ func TestVerif(t *testing.T) {
 				}
 				fs := frameSpec{Type: typ, From: 1 + r.Intn(3), AdvanceMs: int64(r.Pick(0, 0, 1, 250, 1000, 59000, 149950, 300000, 661000)), Cmd: genCmd(r, kind, 946684800)}
 				cs.Frames = append(cs.Frames, fs)
+			}
+			if cs.InPoll {
+				// everything happens inside the 10-minute poll window
+				for j := range cs.Frames {
+					if cs.Frames[j].AdvanceMs > 1000 {
+						cs.Frames[j].AdvanceMs = 1000
+					}
+				}
 			}
 			do(cs)
 		}
